@@ -202,6 +202,11 @@ func fromCacheItem(
 
 	for _, rrs := range [][]dns.RR{resp.Answer, resp.Ns, resp.Extra} {
 		for _, rr := range rrs {
+			if _, isOPT := rr.(*dns.OPT); isOPT {
+				// The TTL field of an OPT record holds the EDNS flags.
+				continue
+			}
+
 			rr.Header().Ttl = newTTL
 		}
 	}
